@@ -27,6 +27,11 @@ structure SInv (s : St) : Prop where
   excl : s.budget ≠ none → s.waiting = false
   /-- the sender sleeps in the flow-control wait without a pending wake token only while the limits are used up -/
   flow : s.waiting = true → s.token = false → ¬ (0 < s.fc.bytes - bytesOf s.pending ∧ 0 < s.fc.msgs - s.pending.length)
+  /-- the reader's update of the map is the guarded one (Extracted.streamerReaderReleases) -/
+  g : s.guarded = true
+  /-- what the reader is about to release is not outstanding: an id sent again since the reader's
+      snapshot has left `releasing` -/
+  rel : ∀ i ∈ s.releasing, i ∉ s.out
 
 /-! ### list facts -/
 
@@ -141,11 +146,12 @@ theorem select_first (b : Int) (hb : 0 < b) (cands : List (Nat × Nat)) :
 /-! ### the invariant -/
 
 theorem SInv.init : SInv {} := by
-  refine ⟨⟨by decide, by decide⟩, by decide, Or.inl (by decide), ?_, ?_, ?_, ?_⟩
+  refine ⟨⟨by decide, by decide⟩, by decide, Or.inl (by decide), ?_, ?_, ?_, ?_, rfl, ?_⟩
   · intro i hi; cases hi
   · intro m b strict h; cases h
   · intro h; exact absurd rfl h
   · intro h; cases h
+  · intro i hi; cases hi
 
 theorem maxFc_ge (a b : Fc) : a.msgs ≤ (maxFc a b).msgs ∧ a.bytes ≤ (maxFc a b).bytes ∧
     b.msgs ≤ (maxFc a b).msgs ∧ b.bytes ≤ (maxFc a b).bytes := by
@@ -156,7 +162,7 @@ theorem SInv.step {s : St} (h : SInv s) (e : Ev) : SInv (step s e) := by
   cases e with
   | setFc m b =>
     obtain ⟨g1, g2, g3, g4⟩ := maxFc_ge s.hi ⟨m, b⟩
-    refine ⟨⟨g3, g4⟩, ?_, ?_, h.out_sub, ?_, h.excl, ?_⟩
+    refine ⟨⟨g3, g4⟩, ?_, ?_, h.out_sub, ?_, h.excl, ?_, h.g, h.rel⟩
     · have := h.count; show (s.pending.length : Int) ≤ (maxFc s.hi ⟨m, b⟩).msgs; omega
     · rcases h.bytes with h1 | h1
       · left; show bytesOf s.pending ≤ (maxFc s.hi ⟨m, b⟩).bytes; omega
@@ -177,7 +183,7 @@ theorem SInv.step {s : St} (h : SInv s) (e : Ev) : SInv (step s e) := by
       · rename_i hw
         split
         · rename_i hcap
-          refine ⟨h.hi_ge, h.count, h.bytes, h.out_sub, ?_, ?_, ?_⟩
+          refine ⟨h.hi_ge, h.count, h.bytes, h.out_sub, ?_, ?_, ?_, h.g, h.rel⟩
           · intro m b strict hb
             simp only [Option.some.injEq, Prod.mk.injEq] at hb
             obtain ⟨hm, hbb, hst⟩ := hb
@@ -204,14 +210,14 @@ theorem SInv.step {s : St} (h : SInv s) (e : Ev) : SInv (step s e) := by
           · intro _; simpa using hw
           · intro hwt; simp only at hwt; rw [hwt] at hw; exact absurd rfl hw
         · rename_i hcap
-          refine ⟨h.hi_ge, h.count, h.bytes, h.out_sub, ?_, ?_, ?_⟩
+          refine ⟨h.hi_ge, h.count, h.bytes, h.out_sub, ?_, ?_, ?_, h.g, h.rel⟩
           · intro m b strict hb; simp only at hb; rw [hbud] at hb; cases hb
           · intro hne; simp only at hne; exact absurd hbud hne
           · intro _ _; exact hcap
   | wake spurious =>
     simp only [Stream.step]
     split
-    · refine ⟨h.hi_ge, h.count, h.bytes, h.out_sub, h.budget, fun _ => rfl, ?_⟩
+    · refine ⟨h.hi_ge, h.count, h.bytes, h.out_sub, h.budget, fun _ => rfl, ?_, h.g, h.rel⟩
       intro hw; cases hw
     · exact h
   | query cands =>
@@ -225,7 +231,17 @@ theorem SInv.step {s : St} (h : SInv s) (e : Ev) : SInv (step s e) := by
         have h2 : (cands.take m).length ≤ m := by simp [List.length_take]; omega
         omega
       have hw : s.waiting = false := h.excl (by rw [hbud]; simp)
-      refine ⟨h.hi_ge, ?_, ?_, ?_, ?_, ?_, ?_⟩
+      refine ⟨h.hi_ge, ?_, ?_, ?_, ?_, ?_, ?_, h.g, ?_⟩
+      rotate_right
+      · -- an id sent again leaves `releasing`; the others were not outstanding and are not sent now
+        intro i hi ho
+        have hg := h.g
+        simp only [hg, if_true] at hi
+        have hi' := List.mem_filter.mp hi
+        have hns : i ∉ (select strict b (cands.take m) 0 0).map (·.1) := by simpa using hi'.2
+        rcases List.mem_append.mp ho with h1 | h1
+        · exact h.rel i hi'.1 (List.mem_filter.mp h1).1
+        · exact hns h1
       · show ((insertAll s.pending (select strict b (cands.take m) 0 0)).length : Int) ≤ s.hi.msgs
         unfold insertAll
         have := removeIds_length_le s.pending ((select strict b (cands.take m) 0 0).map (·.1))
@@ -260,7 +276,7 @@ theorem SInv.step {s : St} (h : SInv s) (e : Ev) : SInv (step s e) := by
       · intro hne; exact absurd rfl hne
       · intro hwt; simp only at hwt; rw [hw] at hwt; cases hwt
   | fetchEmpty =>
-    refine ⟨h.hi_ge, h.count, h.bytes, h.out_sub, ?_, ?_, ?_⟩
+    refine ⟨h.hi_ge, h.count, h.bytes, h.out_sub, ?_, ?_, ?_, h.g, h.rel⟩
     · intro m b st hb; cases hb
     · intro hne; exact absurd rfl hne
     · intro hwt ht
@@ -270,7 +286,7 @@ theorem SInv.step {s : St} (h : SInv s) (e : Ev) : SInv (step s e) := by
   | settle ids =>
     have hl := removeIds_length_le s.pending ids
     have hb := removeIds_bytes_le s.pending ids
-    refine ⟨h.hi_ge, ?_, ?_, ?_, ?_, h.excl, ?_⟩
+    refine ⟨h.hi_ge, ?_, ?_, ?_, ?_, h.excl, ?_, h.g, fun i hi ho => h.rel i hi (List.mem_filter.mp ho).1⟩
     · have := h.count; show ((removeIds s.pending ids).length : Int) ≤ s.hi.msgs; omega
     · rcases h.bytes with h1 | h1
       · left; show bytesOf (removeIds s.pending ids) ≤ s.hi.bytes; omega
@@ -286,14 +302,42 @@ theorem SInv.step {s : St} (h : SInv s) (e : Ev) : SInv (step s e) := by
       · intro hs; show removeIds s.pending ids = []; rw [a3 hs]; rfl
     · intro _ ht; cases ht
   | extSettle ids =>
-    refine ⟨h.hi_ge, h.count, h.bytes, ?_, h.budget, h.excl, h.flow⟩
+    refine ⟨h.hi_ge, h.count, h.bytes, ?_, h.budget, h.excl, h.flow, h.g, fun i hi ho => h.rel i hi (List.mem_filter.mp ho).1⟩
     intro i hi
     exact h.out_sub i (List.mem_filter.mp hi).1
+  | settleCommit ids =>
+    refine ⟨h.hi_ge, h.count, h.bytes, ?_, h.budget, h.excl, h.flow, h.g, ?_⟩
+    · intro i hi
+      exact h.out_sub i (List.mem_filter.mp hi).1
+    · intro i hi ho
+      have ho' := List.mem_filter.mp ho
+      rcases List.mem_append.mp hi with h1 | h1
+      · exact h.rel i h1 ho'.1
+      · have : i ∈ ids := (List.mem_filter.mp h1).1
+        simp [this] at ho'
+  | settleBook =>
+    have hl := removeIds_length_le s.pending s.releasing
+    have hb := removeIds_bytes_le s.pending s.releasing
+    refine ⟨h.hi_ge, ?_, ?_, ?_, ?_, h.excl, ?_, h.g, ?_⟩
+    · have := h.count; show ((removeIds s.pending s.releasing).length : Int) ≤ s.hi.msgs; omega
+    · rcases h.bytes with h1 | h1
+      · left; show bytesOf (removeIds s.pending s.releasing) ≤ s.hi.bytes; omega
+      · right; show (removeIds s.pending s.releasing).length ≤ 1; omega
+    · intro i hi
+      exact mem_removeIds (h.out_sub i hi) (fun hr => h.rel i hr hi)
+    · intro m b st hbud
+      obtain ⟨a1, a2, a3, a4⟩ := h.budget m b st hbud
+      refine ⟨?_, ?_, ?_, a4⟩
+      · show (m : Int) + (removeIds s.pending s.releasing).length ≤ s.hi.msgs; omega
+      · show b + bytesOf (removeIds s.pending s.releasing) ≤ s.hi.bytes; omega
+      · intro hs; show removeIds s.pending s.releasing = []; rw [a3 hs]; rfl
+    · intro _ ht; cases ht
+    · intro i hi; cases hi
   | refresh gone =>
     simp only [Stream.step]
     have hl := removeIds_length_le s.pending (gone.filter (fun i => !s.out.contains i))
     have hb := removeIds_bytes_le s.pending (gone.filter (fun i => !s.out.contains i))
-    refine ⟨h.hi_ge, ?_, ?_, ?_, ?_, h.excl, ?_⟩
+    refine ⟨h.hi_ge, ?_, ?_, ?_, ?_, h.excl, ?_, h.g, h.rel⟩
     · have := h.count; show ((removeIds s.pending _).length : Int) ≤ s.hi.msgs; omega
     · rcases h.bytes with h1 | h1
       · left; show bytesOf (removeIds s.pending _) ≤ s.hi.bytes; omega
@@ -362,6 +406,36 @@ theorem C11_no_missed_capacity (evs : List Ev) :
       ¬ (0 < s.fc.bytes - bytesOf s.pending ∧ 0 < s.fc.msgs - s.pending.length) := by
   intro s
   exact (SInv.init.run evs).flow
+
+/-! ### the reader between its COMMIT and its update of the map
+
+`settleCommit` / `settleBook` split a stream ack / nack at the transaction boundary: after the
+commit a nacked message is deliverable again and a fetch may send it before the reader updates the
+map.  `C11_bound` above quantifies over these events as well.  It needs the reader to release only
+the entries it saw before the database call (`guarded`); the source has that shape, and without it
+the bound fails. -/
+
+/-- the source's reader has the guarded shape, so the model's initial state is the one the theorems start from -/
+theorem C11_reader_releases_guarded :
+    (∀ r ∈ Extracted.streamerReaderReleases, r = "guarded") ∧ Extracted.streamerReaderReleases ≠ [] ∧
+    St.ofSource = {} := by
+  refine ⟨?_, ?_, ?_⟩
+  · intro r hr; simp [Extracted.streamerReaderReleases] at hr; exact hr
+  · simp [Extracted.streamerReaderReleases]
+  · simp [St.ofSource, Extracted.streamerReaderReleases]
+
+/-- limits 2 messages: m1 is sent, nacked on the stream (commit), fetched and sent again before the
+    reader updates the map, then m2 and m3 arrive.  An unguarded reader forgets the re-sent m1:
+    three messages are outstanding. -/
+theorem C11_unguarded_release_breaks_bound :
+    let evs := [Ev.setFc 2 1000, .loop, .query [(1, 14)], .settleCommit [1], .loop, .query [(1, 14)], .settleBook,
+                .loop, .query [(2, 14), (3, 14)]]
+    (run { guarded := false } evs).out = [1, 2, 3] ∧ (run { guarded := false } evs).hi.msgs = 2 ∧
+    (run {} evs).out = [1, 2] := by decide
+
+/-- the two halves in direct succession are the atomic `settle` (as far as the sender can tell) -/
+example : (run {} [.setFc 2 10, .loop, .query [(1, 4), (3, 5)], .settleCommit [1], .settleBook]).pending =
+    (run {} [.setFc 2 10, .loop, .query [(1, 4), (3, 5)], .settle [1]]).pending := by decide
 
 /-- non-vacuity: limits 3 messages / 10 bytes; 3 candidates of 4, 8 and 5 bytes: the first and the
     third are sent, 8 does not fit; with limit 2 the sender then blocks; an ack leaves a token -/
